@@ -483,7 +483,8 @@ pub fn tpl_program(r: &mut Rng) -> String {
     let (c1, c2, c3, c4) = (cs[0], cs[1], cs[2], cs[3]);
     let n = r.range(2, 9);
     // shapes that took outside eyes to discover get extra weight
-    let shape = match r.below(26) {
+    let shape = match r.below(28) {
+        26 | 27 => 103,
         24 | 25 => 102,
         22 | 23 => 101,
         16 | 17 | 18 => 15,
@@ -494,6 +495,31 @@ pub fn tpl_program(r: &mut Rng) -> String {
         x => x,
     };
     match shape {
+        // let-tables of the same name in two or three modules, each one a CTE of the query
+        // (they all ask for the same CTE name), with or without a database table of that name
+        103 => {
+            let nm = *r.pick(&["x", "base", "orders", "t"]);
+            let k = r.range(2, 4);
+            let mods = ["ma", "mb", "mc"];
+            let mut out = String::new();
+            for (j, m) in mods.iter().take(k).enumerate() {
+                let body = match r.below(3) {
+                    0 => format!("from {t}{j} | take {}", n + j),
+                    1 => format!("from {u}{j} | sort {c1} | take {}", n + j),
+                    _ => format!("from {t}{j} | group {c2} (take 1)"),
+                };
+                out.push_str(&format!("module {m} {{ let {nm} = ({body}) }}\n"));
+            }
+            let first = if r.below(3) == 0 { nm.to_string() } else { format!("{}.{nm}", mods[0]) };
+            out.push_str(&format!("from {first}\n"));
+            for m in mods.iter().take(k).skip(if first == nm { 0 } else { 1 }) {
+                out.push_str(&format!("join {m}.{nm} (=={c1})\n"));
+            }
+            if r.below(2) == 0 {
+                out.push_str(&format!("take {n}\n"));
+            }
+            out
+        }
         // a program that fails *late*: the SQL backend has already turned one or two
         // let-tables into CTEs when it meets a set operation most dialects cannot express
         // (EXCEPT ALL / INTERSECT ALL); whatever the translation had built by then must not
